@@ -205,8 +205,13 @@ impl<T: RealNumber, M: Matrix<T>> Lasso<T, M> {
         let col_mean = x.mean(0);
         let col_std = x.std(0);
 
+        let (n, _) = x.shape();
         for (i, col_std_i) in col_std.iter().enumerate() {
-            if (*col_std_i - T::zero()).abs() < T::epsilon() {
+            // a column is constant when all of its values coincide; its computed standard deviation is then
+            // pure rounding noise (it can exceed machine epsilon or be NaN), so test the values themselves
+            let first = x.get(0, i);
+            let constant = (1..n).all(|r| x.get(r, i) == first);
+            if constant || !((*col_std_i - T::zero()).abs() >= T::epsilon()) {
                 return Err(Failed::fit(&format!(
                     "Cannot rescale constant column {}",
                     i
